@@ -973,7 +973,9 @@ func (e *Evaluator) evalStatementNested(stmt Statement) error {
 			}
 		}
 	case *StatementFor:
-		e.evalExpr(st.PreExpr)
+		if _, err := e.evalExpr(st.PreExpr); err != nil {
+			return err
+		}
 		loopCount := 0
 		for {
 			cell, err := e.evalExpr(st.Expr)
